@@ -12,6 +12,7 @@ import (
 	"github.com/thushan/olla/internal/adapter/stats"
 	"github.com/thushan/olla/internal/core/domain"
 	"github.com/thushan/olla/verifharness/ev"
+	"github.com/thushan/olla/verifharness/rig"
 	"github.com/thushan/olla/verifharness/gen"
 	"github.com/thushan/olla/verifharness/hx"
 	"pgregory.net/rapid"
@@ -401,11 +402,13 @@ func runGauge(c GaugeCase) []ev.Violation {
 }
 
 func TestC06(t *testing.T) {
-	rec.SetRule("rapid-generated endpoint lists (n<=5, six statuses, priorities 0..3, connection vectors 0..20 plus inc/dec op lists) x strategy from balancer.Factory x goroutines {1,2,8,32}; non-trivial = priority: >=2 routable members in >=2 priority tiers; round-robin: >=2 routable and >=2 goroutines; least-connections: non-constant gauge vector among routable members; distinct by full case")
+	rec.SetRule("rapid-generated endpoint lists (n<=5, six statuses, priorities 0..3, connection vectors 0..20 plus inc/dec op lists) x strategy from balancer.Factory x goroutines {1,2,8,32}; non-trivial = priority: >=2 routable members in >=2 priority tiers; round-robin: >=2 routable and >=2 goroutines; least-connections: non-constant gauge vector among routable members; distinct by full case. Sub-check 'e2e': n*k sequential requests through the running proxy (both engines) over 2..4 healthy endpoints: round-robin serves each exactly k, priority only the top tier")
 	rec.Assume("priority weighted choice uses Olla's unseedable math/rand: coverage of every top-tier member is judged over 1200 selections (miss probability of a present member <= e^-29)")
-	if ev.Replay(t, rec, "balancers", runCase) || ev.Replay(t, rec, "gauges", runGauge) {
+	defer rig.StopAll()
+	if ev.Replay(t, rec, "balancers", runCase) || ev.Replay(t, rec, "gauges", runGauge) || ev.Replay(t, rec, "e2e", runE2E) {
 		return
 	}
 	ev.Check(t, rec, "balancers", rec.Pick(6000, 120000), genCase, runCase)
 	ev.Check(t, rec, "gauges", rec.Pick(60, 1500), genGauge, runGauge)
+	ev.Check(t, rec, "e2e", rec.Pick(40, 600), genE2E, runE2E)
 }
